@@ -56,15 +56,24 @@ Toks       == {"A", "B", "N", "P1", "P2", "E"}
 (* document 2 (global security: [{key}]):                                                                            *)
 (*   g_good / g_bad GET /g (inherits the global requirement) with X-Key: good / bad                                   *)
 (*   g_open         GET /gopen (security: [] overrides the global requirement), no key                                *)
+(* document 3 (servers: [{url: http://api.example.com:8080/v1}] -- the routers match scheme, host, port, base path):  *)
+(*   s_ok           GET http://api.example.com:8080/v1/s                                                              *)
+(*   s_host / s_scheme / s_port    the same method and path on another host / over https / on port 9090: no route     *)
+(*   s_base         GET http://api.example.com:8080/s (outside the server's base path): no route                      *)
+(*   (the server names its port: whether a server URL WITHOUT a port serves a request that names one is the routers'  *)
+(*   business -- gorilla/mux says any port, the legacy router compares the URL text -- and outside this property)    *)
 (* Whether a request that meets a security requirement validates depends on the AuthenticationFunc the gate was      *)
 (* configured with (cfg.auth), whether a body / query violation matters depends on the Options (cfg.opt).             *)
-BaseValid       == {"valid_post", "valid_plain", "valid_upgrade", "opt_anon", "g_open"}
-NotFoundClasses == {"nf_path", "nf_method", "nf_options", "nf_head"}
+BaseValid       == {"valid_post", "valid_plain", "valid_upgrade", "opt_anon", "g_open", "s_ok"}
+ServerMismatch  == {"s_host", "s_scheme", "s_port", "s_base"}
+NotFoundClasses == {"nf_path", "nf_method", "nf_options", "nf_head"} \cup ServerMismatch
 BaseInvalid     == {"inv_body", "inv_param", "inv_pathlevel", "inv_nobody", "inv_ctype", "inv_noparam"}
 SecGood         == {"valid_secure", "g_good"}
 SecBad          == {"inv_security", "sec_nokey", "g_bad"}
 SecClasses      == SecGood \cup SecBad
 ReqClasses == BaseValid \cup NotFoundClasses \cup BaseInvalid \cup SecClasses
+(* the document a request class is sent against (one gate instance serves one document) *)
+DocOf(rc)  == IF rc \in {"s_ok"} \cup ServerMismatch THEN "S" ELSE IF rc \in {"g_good", "g_bad", "g_open"} THEN "G" ELSE "1"
 ErrModes   == {"default", "custom"}
 (* how the gate was given its AuthenticationFunc:                                                                     *)
 (*   callback  a function that accepts exactly X-Key: good                                                            *)
@@ -88,6 +97,11 @@ Opts       == {"none"} \cup RespOpts \cup ReqOpts
 (*             WHILE it serves the request under observation                                                       *)
 (* The middleware keeps no state between requests (L2 below has none), so the contract ignores the primer.        *)
 Primers    == {"none", "p204", "pbadresp", "pbadreq", "cbadresp", "cbadreq"}
+(* cfg.prior: the class of ANOTHER request the same gate instance served (handler answering 200 with a valid body, if  *)
+(* it got that far) just before the one under observation -- every ordered pair of request classes of one document:    *)
+(* the same request twice, the same method and path on another server, the same path with another parameter value,    *)
+(* another key, another method, ...  A gate keeps nothing from one request to the next, so the contract ignores it.    *)
+Priors     == {"none"} \cup ReqClasses
 
 AuthAccepts(c) ==
    CASE c.auth = "callback" -> c.reqClass \in SecGood
@@ -218,7 +232,7 @@ ErrCodeOf(status) == CASE status = 404 -> 1 [] status = 400 -> 2 [] status = 500
 
 -----------------------------------------------------------------------------
 (* L1: the contract of property C14 for one run.                             *)
-(*  cfg = [strict, reqClass, errMode, gate, opt, primer, auth]; scr = the    *)
+(*  cfg = [strict, reqClass, errMode, gate, opt, primer, auth, prior]; scr = *)
 (*  calls the handler makes if invoked; obs = [invoked (count), errs (seq of *)
 (*  [status, code]), eff (what the client ends up with), silent (no call at  *)
 (*  all was made on the client's writer)].                                   *)
@@ -282,7 +296,7 @@ Contract(cfg, scr, obs) == Failed(cfg, scr, obs) = {}
 -----------------------------------------------------------------------------
 (* L2: the middleware's own state machine.                                   *)
 VARIABLES
-   cfg,       \* [strict, reqClass, errMode, gate, opt, primer, auth]
+   cfg,       \* [strict, reqClass, errMode, gate, opt, primer, auth, prior]
    phase,     \* "start" | "handler" | "aborted" | "done"
    w,         \* wrapper state [hw, st, buf]     (headerWritten, status, body tokens)
    hdr,       \* Content-Type currently in the client's header map
@@ -317,10 +331,17 @@ CfgOK(c) ==
    /\ (c.opt \in ReqOpts => c.errMode = "custom" /\ c.auth \in {"callback", "nofunc"})                               \* options that matter at the gate
    /\ (c.auth = "noopts" => c.opt = "none")
    /\ (c.auth # "callback" /\ c.gate = "validator" => c.errMode = "custom")
+   /\ (c.prior # "none" => /\ DocOf(c.prior) = DocOf(c.reqClass) /\ c.gate \in {"validator", "vhandler"} /\ c.errMode = "custom"
+                            /\ c.opt = "none" /\ c.auth = "callback" /\ c.primer = "none")
+
+WithPrior(c0, p) == [strict |-> c0.strict, reqClass |-> c0.reqClass, errMode |-> c0.errMode, gate |-> c0.gate, opt |-> c0.opt,
+                     primer |-> c0.primer, auth |-> c0.auth, prior |-> p]
 
 Init ==
-   /\ cfg \in [strict : BOOLEAN, reqClass : ReqClasses, errMode : ErrModes, gate : Gates, opt : Opts, primer : Primers, auth : Auths]
-   /\ CfgOK(cfg)
+   \* all c with CfgOK(c) -- enumerated so that TLC does not walk the whole product with Priors
+   /\ \E c0 \in [strict : BOOLEAN, reqClass : ReqClasses, errMode : ErrModes, gate : Gates, opt : Opts, primer : Primers, auth : Auths] :
+         /\ CfgOK(WithPrior(c0, "none"))
+         /\ \E p \in Priors : cfg = WithPrior(c0, p) /\ CfgOK(cfg)
    /\ phase = "start" /\ w = WInit /\ hdr = "none" /\ script = <<>> /\ cOut = <<>>
    /\ invoked = 0 /\ errs = <<>> /\ logs = <<>>
 
@@ -336,7 +357,7 @@ ErrFuncOut(status, h) ==
                              [e |-> "W", data |-> "X", ct |-> h]>>]
 
 (* statuses ConvertErrors + DefaultErrorEncoder give for the request classes of the test document *)
-VHStatus(rc) == CASE rc = "nf_path" -> 404 [] rc \in {"nf_method", "nf_options", "nf_head"} -> 405 [] rc = "inv_body" -> 422 [] rc = "inv_param" -> 400
+VHStatus(rc) == CASE rc \in {"nf_path"} \cup ServerMismatch -> 404 [] rc \in {"nf_method", "nf_options", "nf_head"} -> 405 [] rc = "inv_body" -> 422 [] rc = "inv_param" -> 400
                   [] rc = "inv_pathlevel" -> 404 [] OTHER -> 500
 
 Gate ==   \* FindRoute / ValidateRequest fail: log, errFunc, return
@@ -444,7 +465,7 @@ Epilogue == Gate \/ RespCheck \/ Aborted
 (* Full depth (MaxCalls) for the configurations the response path depends on; the configurations that only vary the     *)
 (* gate (AuthenticationFunc, request-side options, the security classes of the second document) get SideCalls calls;    *)
 (* extended calls only under the main request class.                                                                    *)
-Full(c)   == /\ c.auth = "callback" /\ c.opt \notin ReqOpts
+Full(c)   == /\ c.auth = "callback" /\ c.opt \notin ReqOpts /\ c.prior = "none"
              /\ c.reqClass \in {"valid_post", "valid_plain", "valid_secure", "valid_upgrade"}
              /\ ~(c.gate = "vhandler" /\ c.errMode = "custom")
 Depth(c)  == IF Full(c) THEN MaxCalls ELSE SideCalls
